@@ -591,6 +591,9 @@ class Env:
                 lo, hi = rng
                 return rel_facts("Ge", x, lo, True) + rel_facts("Lt", x, hi, True)
             return []
+        if short in ("any", "all") and len(args) == 2 and "Iterator" in nm and truth == (short == "all"):
+            # `!v[..k].iter().any(|x| P(x))` / `v[..k].iter().all(|x| P(x))`: the closure's outcome is known for every element
+            return self.quantified_facts(t, dpos, want=(short == "all"))
         if short == "starts_with" and len(args) == 2 and truth:
             a = self.op_term(args[0], dpos)
             kb = self.const_bytes_of(args[1])
@@ -598,6 +601,172 @@ class Env:
                 ln = Term("len(%s)" % strip_ref(repr(a)), 0, len_reads(a.reads), "usize")
                 return rel_facts("Ge", ln, Term(None, len(kb)), True)
         return []
+
+    def quantified_facts(self, t, dpos, want):
+        """facts about the first k elements v[0..k] of a vector, from a dominating `any` that was false / `all` that was true:
+        the closure took, for each element, its only path to the result `want`; the comparisons on that path (between the
+        element, constants and captured variables) hold for v[0], .., v[k-1].  k must be a small constant (`v[..k].iter()`)."""
+        b = self.b
+        F = b.facts
+        args = t["args"]
+        # the closure value and what it captures
+        cd = b.def_rv(args[1])
+        if not (cd and cd[2] == "rv" and cd[3]["k"] == "agg" and cd[3]["kind"].get("a") == "closure"):
+            return []
+        cb = F.bodies.get(cd[3]["kind"]["def"])
+        if cb is None or cb.argc != 2:
+            return []
+        caps = cd[3]["ops"]
+        # the iterator: &mut it, it = slice::iter(S), S = &*index(V, ..k)
+        cur, k, V = args[0], None, None
+        for _ in range(8):
+            p = op_place(cur)
+            if p is None or [e for e in p["p"] if e != "*"]:
+                return []
+            d = b.single_def(p["l"])
+            if d is None:
+                return []
+            if d[2] == "rv" and d[3]["k"] in ("use", "cast"):
+                cur = d[3]["o"]
+                continue
+            if d[2] == "rv" and d[3]["k"] == "ref":
+                cur = {"c": d[3]["p"]}
+                continue
+            if d[2] != "call":
+                return []
+            short = (d[3]["f"].get("fn") or "").rsplit("::", 1)[-1]
+            full = d[3]["f"].get("full") or ""
+            if short in ("iter", "into_iter", "by_ref", "deref", "as_slice") and d[3]["args"]:
+                cur = d[3]["args"][0]
+                continue
+            if short == "index" and "RangeTo<usize>" in full and len(d[3]["args"]) == 2:
+                r = self.const_struct_of(d[3]["args"][1])
+                try:
+                    k = int((r or {}).get("fields", {}).get("end"))
+                except (TypeError, ValueError):
+                    k = None
+                if k is None:
+                    rd = b.def_rv(d[3]["args"][1])
+                    if rd and rd[2] == "rv" and rd[3]["k"] == "agg" and rd[3]["kind"].get("adt", "").endswith("RangeTo") and len(rd[3]["ops"]) == 1:
+                        kt = self.op_term(rd[3]["ops"][0], (rd[0], 10**6))
+                        k = kt.off if kt.base is None else None
+                V = d[3]["args"][0]
+                dposV = (d[0], 10**6)
+                m = re.match(r"^<(?:std::vec::Vec<(.+?)(?:, .*)?>|\[(.+?)(?:; \d+)?\]) as ", full)
+                ety = ((m.group(1) or m.group(2) or "").strip()) if m else None
+                break
+            return []
+        if V is None or k is None or not (1 <= k <= 16):
+            return []
+        # the single path of the closure to `want`
+        envc = Env(cb)
+        paths = []
+
+        def walk(x, conds, seen):
+            if len(paths) > 16 or x in seen:
+                return
+            tt = cb.term(x)
+            if tt["k"] == "return":
+                paths.append(list(conds))
+                return
+            if tt["k"] == "switch" and tt["dty"] == "bool":
+                for v, y in tt["tg"]:
+                    walk(y, conds + [(x, tt["d"], False)], seen | {x})
+                walk(tt["else"], conds + [(x, tt["d"], True)], seen | {x})
+                return
+            for y in cb.succ[x]:
+                if not cb.blocks[y].get("cleanup"):
+                    walk(y, conds, seen | {x})
+        walk(0, [], frozenset())
+        good = []
+        for conds in paths:
+            # value of _0 on this path: the last assignment to _0 in the blocks the path passed (constants and conditions only)
+            blocks = [c_[0] for c_ in conds]
+            val = None
+            # re-walk the straight-line blocks of the path to find the store to _0
+            x = 0
+            order = []
+            ci = 0
+            seenb = set()
+            while x is not None and x not in seenb:
+                seenb.add(x)
+                order.append(x)
+                tt = cb.term(x)
+                if tt["k"] == "return":
+                    break
+                if tt["k"] == "switch" and tt["dty"] == "bool":
+                    if ci >= len(conds) or conds[ci][0] != x:
+                        x = None
+                        break
+                    truth_ = conds[ci][2]
+                    ci += 1
+                    x = tt["else"] if truth_ else [y for v, y in tt["tg"] if v == "0"][0]
+                    continue
+                nx = [y for y in cb.succ[x] if not cb.blocks[y].get("cleanup")]
+                x = nx[0] if len(nx) == 1 else None
+            extra = None
+            for bb_ in order:
+                for st_ in cb.blocks[bb_]["st"]:
+                    if "lhs" in st_ and st_["lhs"]["l"] == 0 and not st_["lhs"]["p"]:
+                        kk = op_const(st_["rv"]["o"]) if st_["rv"]["k"] == "use" else None
+                        if kk is not None and "int" in kk:
+                            val, extra = bool(int(kk["int"])), None
+                        elif st_["rv"]["k"] == "use":
+                            val, extra = "cond", (bb_, st_["rv"]["o"], None)
+                        elif st_["rv"]["k"] == "bin" and st_["rv"]["op"] in ("Lt", "Le", "Gt", "Ge", "Eq", "Ne"):
+                            val, extra = "cond", (bb_, None, st_["rv"])
+                        else:
+                            val, extra = "unknown", None
+            if val is want:
+                good.append((conds, None))
+            elif val == "cond":
+                good.append((conds, extra))
+        if len(good) != 1:
+            return []
+        conds, extra = good[0]
+        cfacts = []
+        for (x, d, truth_) in conds:
+            cfacts += envc.cond_facts(d, (x, 10**6), truth_)
+        if extra is not None and extra[1] is not None:
+            cfacts += envc.cond_facts(extra[1], (extra[0], 10**6), want)
+        elif extra is not None:
+            rv_ = extra[2]
+            epos = (extra[0], 10**6)
+            cfacts += rel_facts(rv_["op"], envc.op_term(rv_["a"], epos), envc.op_term(rv_["b"], epos), want)
+        # translate: the element parameter -> v[i]; captured variables -> the enclosing function's terms; constants stay
+        ppos = (0, 0)
+        elem_base = envc.place_term({"l": 2, "p": ["*"]}, ppos).base
+        elem_base2 = envc.local_term(2, ppos).base
+        capmap = {}
+        for nm_, pl in cb.upvars:
+            fld = [e for e in pl["p"] if isinstance(e, dict) and "f" in e]
+            if not fld or fld[0]["f"] >= len(caps):
+                continue
+            pt = self.deref_term(caps[fld[0]["f"]], dpos) if op_place(caps[fld[0]["f"]]) is not None else None
+            if pt is None:
+                pt = self.op_term(caps[fld[0]["f"]], dpos)
+            capmap[envc.place_term(pl, ppos).base] = pt
+        recv = self.op_term(V, dposV)
+        out = []
+        for i in range(k):
+            et = Term("%s[%r]" % (strip_ref(repr(recv)), Term(None, i)), 0, recv.reads, ety if ty_range(ety or "") else None)
+
+            def tr(tm):
+                if tm.base is None:
+                    return tm
+                if tm.base in (elem_base, elem_base2):
+                    return Term(et.base, tm.off, et.reads, et.ty)
+                if tm.base in capmap and capmap[tm.base] is not None and capmap[tm.base].base is not None:
+                    c_ = capmap[tm.base]
+                    return Term(c_.base, c_.off + tm.off, c_.reads, c_.ty)
+                if tm.base in capmap and capmap[tm.base] is not None:
+                    return Term(None, capmap[tm.base].off + tm.off)
+                return None
+            for (xa, ya, c_) in cfacts:
+                x2, y2 = tr(xa), tr(ya)
+                if x2 is not None and y2 is not None:
+                    out.append((x2, y2, c_))
+        return out
 
     def const_bytes_of(self, o, depth=5):
         b = self.b
